@@ -89,8 +89,16 @@ func runC10(c *Ctx) {
 						em.params[k] = v
 					}
 					if n.Meta {
-						em.meta = map[string]interface{}{"progressToken": fmt.Sprintf("tok-%s", nonce), "k": float64(i)}
-						p["_meta"] = map[string]interface{}{"progressToken": fmt.Sprintf("tok-%s", nonce), "k": float64(i)}
+						em.meta = map[string]interface{}{"progressToken": fmt.Sprintf("tok-%s", nonce), "k": fmt.Sprint(i)}
+						// the same _meta under the Go types a caller may reasonably use
+						switch (i + len(nonce)) % 3 {
+						case 0:
+							p["_meta"] = map[string]interface{}{"progressToken": fmt.Sprintf("tok-%s", nonce), "k": fmt.Sprint(i)}
+						case 1:
+							p["_meta"] = mcp.Meta{"progressToken": fmt.Sprintf("tok-%s", nonce), "k": fmt.Sprint(i)}
+						case 2:
+							p["_meta"] = map[string]string{"progressToken": fmt.Sprintf("tok-%s", nonce), "k": fmt.Sprint(i)}
+						}
 					}
 					err = sender.SendCustomNotification(em.method, p)
 				}
